@@ -220,8 +220,27 @@ def run_case(case):
                     content.append(None)
             c = pe.Corr(content)
             x, y, e = c.plottable()
+            bad = None
             if list(x) != xs or list(y) != vals or list(e) != errs:
-                acc.fail('views:plottable', dict(case, pattern=list(pattern)), 'plottable() = %r, expected %r' % ((x, y, e), (xs, vals, errs)))
+                bad = 'plottable() = %r, expected %r' % ((x, y, e), (xs, vals, errs))
+            else:
+                # call history: the caller edits the lists it got; the observables are analysed again with other parameters through
+                # another handle; a second view must show the current values and errors
+                try:
+                    x.append(99)
+                    y[:] = [0.0] * len(y)
+                    e.clear()
+                except AttributeError:
+                    pass
+                for o in content:
+                    if o is not None:
+                        o.gamma_method(S=0)
+                errs2 = [o.dvalue for o in content if o is not None]
+                x2, y2, e2 = c.plottable()
+                if list(x2) != xs or list(y2) != vals or list(e2) != errs2:
+                    bad = 'second plottable() after the observables were analysed again with S=0 and the first result was edited: %r, expected %r' % ((x2, y2, e2), (xs, vals, errs2))
+            if bad:
+                acc.fail('views:plottable', dict(case, pattern=list(pattern)), bad)
             else:
                 acc.ok(('pl', pattern), True, 'plottable-ok')
         acc.sample({'kind': 'views', 'pattern': [1, 0, 1, 1]})
@@ -233,6 +252,7 @@ def run_case(case):
         ys = [pe.Obs([1.0 + 0.5 * x + 0.1 * r.normal(size=12)], ['E%d|r1' % x]) for x in xs]
         [y.gamma_method() for y in ys]
         es = range(-6, 7, 1 if case['tier'] == 'thorough' else 3)
+        nfit, previous = 0, None
         for e in es:
             for m in (1.0, 2.5, 9.96):
                 for ratio in (0.5, -9.96, 1e3):
@@ -241,15 +261,29 @@ def run_case(case):
                     s = str(o)
                     _, V, E, unit = parse(s)
                     sub = dict(case, e=e, m=m, ratio=ratio)
+                    pos = nfit % 2          # the position alternates from fit to fit
+                    nfit += 1
                     try:
-                        res = pe.least_squares(xs, ys, lambda a, x: a[0] + a[1] * x, priors={1: s}, silent=True)
+                        res = pe.least_squares(xs, ys, lambda a, x: a[0] + a[1] * x, priors={pos: s}, silent=True)
                     except Exception as ex:
                         acc.fail('prior:fit-raised', sub, 'least_squares rejected prior %r: %r' % (s, ex))
                         continue
-                    pr = res.priors[1]
-                    if abs(Fraction(float(pr.value)) - V) > abs(V) * Fraction(1, 10 ** 15) or \
-                            abs(Fraction(float(pr.dvalue)) - E) > E * Fraction(4, 10 ** 15):
-                        acc.fail('prior:fit-value', sub, 'prior %r became %r +- %r' % (s, pr.value, pr.dvalue))
+                    bad = None
+                    if sorted(res.priors) != [pos]:
+                        bad = 'the fit was given a prior at position %d and reports priors at positions %s' % (pos, sorted(res.priors))
+                    else:
+                        pr = res.priors[pos]
+                        if abs(Fraction(float(pr.value)) - V) > abs(V) * Fraction(1, 10 ** 15) or \
+                                abs(Fraction(float(pr.dvalue)) - E) > E * Fraction(4, 10 ** 15):
+                            bad = 'prior %r became %r +- %r' % (s, pr.value, pr.dvalue)
+                    if not bad and previous is not None:
+                        pres, ppos, pV, pE = previous
+                        if sorted(pres.priors) != [ppos] or abs(Fraction(float(pres.priors[ppos].value)) - pV) > abs(pV) * Fraction(1, 10 ** 15) or \
+                                abs(Fraction(float(pres.priors[ppos].dvalue)) - pE) > pE * Fraction(4, 10 ** 15):
+                            bad = 'the priors reported by the PREVIOUS fit result changed after this fit: positions %s' % sorted(pres.priors)
+                    previous = (res, pos, V, E)
+                    if bad:
+                        acc.fail('prior:fit-value', sub, bad)
                     else:
                         acc.ok(('pf', e, m, ratio), True, 'prior-accepted')
         acc.sample({'kind': 'priorfit', 'prior': '0.50(1.0)'})
@@ -286,10 +320,12 @@ def check_views(pe, o, val, dv):
         exp = (val < x, val <= x, val > x, val >= x)
         if tuple(bool(g) for g in got) != exp:
             return ('ordering', 'comparisons of %r with %r give %r, expected %r' % (val, x, got, exp))
-    if dv > 0 and val != 0 and abs(val) > 1e-9:
+    if dv > 0 and val != 0:
         q = abs(val) / dv
         for sg in (q * (1 - 1e-9), q * (1 + 1e-9), q / 2, q * 2, 1, 3):
             exp = abs(val) <= sg * dv
             if bool(o.is_zero_within_error(sg)) != exp:
-                return ('zero-within-error', 'is_zero_within_error(%r) = %r for %r +- %r' % (sg, o.is_zero_within_error(sg), val, dv))
+                # values and fluctuations below 1e-10 in absolute size: reported under their own signature
+                tiny = ':tiny-value' if (abs(val) < 1.0000001e-10 and exp is False) else ''
+                return ('zero-within-error' + tiny, 'is_zero_within_error(%r) = %r for %r +- %r' % (sg, o.is_zero_within_error(sg), val, dv))
     return None
